@@ -495,10 +495,10 @@ def run(tier, seed):
     run.exhaustive = True
     run.extra_cov["substances"] = len(names)
     run.extra_cov["properties"] = sum(len(s["props"]) for s in reg.substances.values())
-    reps = 2 if tier == "quick" else 60
+    reps = 2 if tier == "quick" else 300
     for res in shard_map(work_substances, split(names, nproc() * 2), (seed, reps)):
         run.merge(res)
-    n = 3000 if tier == "quick" else 200000
+    n = 3000 if tier == "quick" else 1000000
     per = nproc()
     for res in shard_map(work_formulas, [None] * per, (seed, n // per + 1)):
         run.merge(res)
